@@ -1,0 +1,24 @@
+// Copyright 2022 The Go Authors. All rights reserved.
+// Use of this source code is governed by a BSD-style
+// license that can be found in the LICENSE file.
+
+//go:build verif
+
+package benchtab
+
+import "golang.org/x/perf/benchproc"
+
+// VerifHook, when set by a verification harness, is called at the
+// scheduling points of Builder.ToTables: "table" (a table was created),
+// "cell.spawn"/"col.spawn" (the main goroutine is about to start a
+// worker), "cell.begin"/"cell.end" and "col.begin"/"col.end" (inside the
+// worker goroutine, around its computation), "barrier1"/"barrier2" (the
+// main goroutine passed the wait group). It may block, which lets a
+// harness impose a schedule.
+var VerifHook func(point string, table *Table, row, col benchproc.Key)
+
+func verifPoint(point string, table *Table, row, col benchproc.Key) {
+	if h := VerifHook; h != nil {
+		h(point, table, row, col)
+	}
+}
